@@ -19,7 +19,14 @@ type knownFinding struct {
 }
 
 func loadKnownFindings() []*knownFinding {
-	b, err := os.ReadFile(filepath.Join(verifDir(), "known_findings.txt"))
+	path := filepath.Join(verifDir(), "known_findings.txt")
+	if exe, err := os.Executable(); err == nil {
+		cand := filepath.Join(filepath.Dir(filepath.Dir(exe)), "known_findings.txt")
+		if _, err := os.Stat(cand); err == nil {
+			path = cand
+		}
+	}
+	b, err := os.ReadFile(path)
 	if err != nil {
 		return nil
 	}
